@@ -287,10 +287,54 @@ func contextRefName(contextOfCall protoreflect.Descriptor, refElement protorefle
 	if len(refPath) == 0 {
 		// the referenced element is the context itself or one of its parents
 		// (a recursive message): its own name resolves from any inner scope
-		return string(refElement.Name()), nil
+		refPath = []string{string(refElement.Name())}
+	}
+
+	if relativeNameIsShadowed(contextOfCall, refPath, refElement) {
+		// a nested declaration closer to the reference has the same name as the
+		// first component: only the absolute name means the intended type
+		return "." + string(refElement.FullName()), nil
 	}
 
 	return strings.Join(refPath, "."), nil
+}
+
+// relativeNameIsShadowed applies protobuf's name resolution to a relative type
+// name as written inside contextOfCall: the first component is looked up in the
+// innermost enclosing message first, then outwards. It reports whether that
+// lookup lands on something other than refElement.
+func relativeNameIsShadowed(contextOfCall protoreflect.Descriptor, relative []string, refElement protoreflect.Descriptor) bool {
+	for scope := contextOfCall; scope != nil; scope = scope.Parent() {
+		msg, ok := scope.(protoreflect.MessageDescriptor)
+		if !ok {
+			// reached the file: package level, where the relative name was built from
+			return false
+		}
+		var found protoreflect.Descriptor
+		if nested := msg.Messages().ByName(protoreflect.Name(relative[0])); nested != nil {
+			found = nested
+		} else if nested := msg.Enums().ByName(protoreflect.Name(relative[0])); nested != nil {
+			found = nested
+		}
+		if found == nil {
+			continue
+		}
+		for _, part := range relative[1:] {
+			inner, ok := found.(protoreflect.MessageDescriptor)
+			if !ok {
+				return true
+			}
+			if next := inner.Messages().ByName(protoreflect.Name(part)); next != nil {
+				found = next
+			} else if next := inner.Enums().ByName(protoreflect.Name(part)); next != nil {
+				found = next
+			} else {
+				return true
+			}
+		}
+		return found.FullName() != refElement.FullName()
+	}
+	return false
 }
 
 func pathToPackage(refElement protoreflect.Descriptor) []string {
